@@ -212,6 +212,8 @@ class NameSanitizer:
         name = re.sub(r"[^0-9a-zA-Z_]", "_", name)
         # Lowercase and collapse multiple underscores
         name = re.sub(r"_+", "_", name).strip("_").lower()
+        if not name:  # e.g. "", "$", "-" or a name without any ASCII letter or digit
+            name = "unnamed"
         # If it starts with a digit, prefix with underscore
         if name and name[0].isdigit():
             name = "_" + name
